@@ -52,14 +52,37 @@ def _contexts():
 
 
 def corpus():
-    return list(cd.single_block_family(1))
+    return BADLOG_DIRECTED + list(cd.single_block_family(1))
 
 
 def generate(rng, tier):
     yield from cd.single_block_family(2 if tier == "quick" else 3)
     n = 2500 if tier == "quick" else 60000
     for _ in range(n):
-        yield sp.gen_case(rng, depth=rng.choice([2, 3, 3]), p_disp=0.6, p_raise=0.12, p_fault=0.45, p_cancel=0.25)
+        case = sp.gen_case(rng, depth=rng.choice([2, 3, 3]), p_disp=0.6, p_raise=0.12, p_fault=0.45, p_cancel=0.25)
+        if rng.random() < 0.12:
+            case = with_bad_loggers(rng, case)
+        yield case
+
+
+def with_bad_loggers(rng, case: str) -> str:
+    """give one or two scope blocks (async / sync) a logger that raises on the scope's "...finished" line"""
+    spec = json.loads(case)
+    blocks, _ = sp.index_program(spec["prog"])
+    scopes = sorted(b for b, st in blocks.items() if st[1] in ("async", "sync"))
+    if not scopes:
+        return case
+    spec["badlog"] = sorted(rng.sample(scopes, min(len(scopes), rng.choice([1, 1, 2]))))
+    return json.dumps(spec, separators=(",", ":"))
+
+
+BADLOG_DIRECTED = [
+    '{"prog":[["block","sync",1,[[0,5]],[],[["probe",1]]],["probe",2]],"sched":[],"badlog":[1]}',
+    '{"prog":[["block","async",1,[[0,5]],[],[["probe",1]]],["probe",2]],"sched":[],"badlog":[1]}',
+    '{"prog":[["block","async",2,[[0,9000]],[],[["try",[["block","sync",1,[[0,7]],[],[["raise","exc"]]]]],["probe",2]]]],"sched":[],"badlog":[1]}',
+    '{"prog":[["block","async",2,[[0,9000]],[],[["try",[["block","async",1,[[0,7]],[[1,"ok","raise",[]]],[["probe",1]]]]],["probe",2]]]],"sched":[],"badlog":[1]}',
+    '{"prog":[["block","async",2,[[0,9000]],[],[["try",[["block","async",1,[[0,7]],[],[["spawn",1,"spawn",[["await",1]]],["raise","exc"]]]]],["probe",2]]]],"sched":[],"badlog":[1,2]}'
+]
 
 
 def block_facts(case: str, out: str):
@@ -92,7 +115,7 @@ def block_facts(case: str, out: str):
             disturb.append(idx)  # a failing body makes TaskGroup cancel the members
             disturb_by.append((idx, e[0], "raise"))
         b = None
-        if k in ("pre", "post", "enter", "bodyend", "left"):
+        if k in ("pre", "post", "enter", "bodyend", "left", "logfail"):
             b = int(e[2])
         elif k in ("dened", "dexed", "dex"):
             b = disp_block[int(e[2])]
@@ -111,6 +134,9 @@ def block_facts(case: str, out: str):
             f["pending"] = len(e) > 4 and e[4] == "1"
         elif k == "left":
             f["left"], f["same"], f["left_idx"] = e[3], e[4], idx
+            f["own"] = e[7] if len(e) > 7 else "-"
+        elif k == "logfail":
+            f["logfail"] = True
         elif k == "dened":
             f["dened"].append(e[3])
         elif k == "dexed":
@@ -153,8 +179,9 @@ def spec_of(f) -> str:
     body = "-"
     if ran:
         body = {"ok": "-", "Cancelled": "c"}.get(f.get("bodyend", "ok"), "u0")
+    mx = "u3" if f.get("logfail") else "-"      # the metrics exit raised (after its reset): a failing logger
     if kind != "A":
-        return f"{kind} - - - {body}"
+        return f"{kind} - - - {body} {mx}"
     de = fault(f["dened"], "u1")
     if not ran:  # what leaves Disposables.__aenter__ (incl. its rollback) is read off the caller's side
         de = "c" if f["left"] == "Cancelled" else "u1"
@@ -162,7 +189,7 @@ def spec_of(f) -> str:
     if ran and dx == "-" and f["dened"] and f["ndex"] == 0 and f["left"] == "Cancelled":
         dx = "c"  # cleanup await cancelled before any __aexit__ started (known finding of C08)
     gx = "?" if f["disturbed"] else "-"
-    return f"{kind} {de} {dx} {gx} {body}"
+    return f"{kind} {de} {dx} {gx} {body} {mx}"
 
 
 def observed_exc(f) -> str:
@@ -172,6 +199,8 @@ def observed_exc(f) -> str:
         return "c"
     if f["same"] == "1":
         return "u0"
+    if f.get("own", "-").startswith("log"):
+        return "u3"
     return "u2" if "enter" in f else "u1"
 
 
@@ -222,7 +251,7 @@ def monitor(case: str, out: str) -> list[str]:
             # whatever else happened: a body that ended with an exception never turns into a normal return
             # (a disposable's `__aexit__` returning True has no say in a scope)
             fails.add("context.body-exception-swallowed")
-        cleanup_ok = all(x == "ok" for x in f["dened"]) and all(x == "ok" for x in f["dexed"])
+        cleanup_ok = all(x == "ok" for x in f["dened"]) and all(x == "ok" for x in f["dexed"]) and not f.get("logfail")
         if cleanup_ok and "bodyend" in f and not f["disturbed"]:
             if f["left"] != f["bodyend"] or (f["left"] != "ok" and f["same"] != "1"):
                 fails.add("context.body-exception-replaced")
